@@ -111,25 +111,33 @@ Fixpoint edge_to_dict (e : edge) : pv :=
 
 Definition copula_members : list string := ["CLAYTON"; "FRANK"; "GUMBEL"; "INDEPENDENCE"].
 
+(* truth value of a dict value (`if parents:`, `if fitted:`) *)
+Definition pv_truthy (p : pv) : bool :=
+  match p with PJ j => truthy j | PEnum _ _ => true | PList l => negb (Nat.eqb (List.length l) 0)
+          | PDict d => negb (Nat.eqb (List.length d) 0) end.
+
 Fixpoint edge_from_dict (fuel : nat) (p : pv) : result edge :=
   match fuel with
   | O => Err Unmodelled
   | S fuel' =>
       match p with
       | PDict d =>
-          (* cls(index, L, R, name, theta) *)
-          i <- (x <- pget "index" d ;; as_nat x) ;;
-          l <- (x <- pget "L" d ;; as_nat x) ;;
-          r <- (x <- pget "R" d ;; as_nat x) ;;
-          nm <- (x <- pget "name" d ;; match x with PEnum _ n => Ok n | PJ (JStr n) => Ok n | _ => Err Unmodelled end) ;;
-          th <- (x <- pget "theta" d ;; as_jv x) ;;
+          (* cls(edge_dict['index'], edge_dict['L'], edge_dict['R'], edge_dict['name'], edge_dict['theta']): the five keys are read
+             BEFORE the constructor runs (a missing key is a KeyError whatever the other values are); Edge.__init__ then stores
+             index, L, R, name, theta in this order *)
+          xi <- pget "index" d ;; xl <- pget "L" d ;; xr <- pget "R" d ;; xn <- pget "name" d ;; xt <- pget "theta" d ;;
+          i <- as_nat xi ;; l <- as_nat xl ;; r <- as_nat xr ;;
+          nm <- match xn with PEnum _ n => Ok n | PJ (JStr n) => Ok n | _ => Err Unmodelled end ;;
+          th <- as_jv xt ;;
           u <- (x <- pget "U" d ;; as_jv x) ;;
+          (* `if parents:` - None, an empty list and every other falsy value leave `parents = None` *)
           ps <- (x <- pget "parents" d ;;
-                 match x with
-                 | PJ JNone | PList [] => Ok None
-                 | PList q => q' <- all_ok (map (edge_from_dict fuel') q) ;; Ok (Some q')
-                 | _ => Err Unmodelled
-                 end) ;;
+                 if pv_truthy x then
+                   match x with
+                   | PList q => q' <- all_ok (map (edge_from_dict fuel') q) ;; Ok (Some q')
+                   | _ => Err Unmodelled
+                   end
+                 else Ok None) ;;
           (* regular_attributes = ['D', 'tau', 'likelihood', 'neighbors'] *)
           dd <- (x <- pget "D" d ;; match x with PJ (JSet s) => Ok s | _ => Err Unmodelled end) ;;
           ta <- (x <- pget "tau" d ;; as_jv x) ;;
@@ -248,10 +256,6 @@ Definition get_tree (p : pv) : result ttype :=
   | PJ (JStr s) => by_name (upper s)
   | _ => Err ValueErr
   end.
-
-Definition pv_truthy (p : pv) : bool :=
-  match p with PJ j => truthy j | PEnum _ _ => true | PList l => negb (Nat.eqb (List.length l) 0)
-          | PDict d => negb (Nat.eqb (List.length d) 0) end.
 
 (* Tree.from_dict(tree_dict, previous) *)
 Definition tree_from_dict (p : pv) (previous : prevt) : result tree :=
